@@ -8,6 +8,7 @@ Emboss/Spec/View.lean; lemmas: Emboss/Lemmas/{ExprMono,ViewMono,ViewMono2,Synth}
 -/
 import Emboss.Lemmas.ViewMono2
 import Emboss.Lemmas.Synth
+import Emboss.Lemmas.OkMono
 namespace Emboss.View
 open Emboss.ViewSpec
 
@@ -63,6 +64,21 @@ theorem C01_prefix_monotone_partial (m : Module) (hm : moduleWF m = true) (sd : 
       List.length_append] at h ⊢
     have h' := of_decide_eq_true h
     omega
+
+/-
+The remaining half of the full statement, for the fragment *modules without array fields*
+(`moduleNoArrays`: nested structures, `bits`, anonymous bits, conditionals, virtual fields,
+aliases, parameters, `[requires]` are all inside the fragment): `Ok() = true` of the structure —
+and of the view at every path below it — on `b` stays true on `b ++ c`.  Arrays are excluded
+because a truncated array can be Ok while a longer one is not; there monotonicity of `Ok()` needs
+"IsComplete ⇒ no present field was clamped" (`C01_size_covers_present_fields` supplies the
+arithmetic; the lifting to views is not carried out) and is observed on the real outputs instead.
+-/
+theorem C01_ok_monotone_partial (m : Module) (hm : moduleWF m = true) (hna : moduleNoArrays m = true)
+    (sd : StructDef) (hsd : structWF m sd = true) (hsn : structNoArrays sd = true)
+    (ps : List Val) (b c : List Nat) (n : Nat) (p : List String) :
+    (G m n).okAt (rootView sd ps b) p = true → (G m n).okAt (rootView sd ps (b ++ c)) p = true :=
+  G_ok_mono hm hna n (rootView sd ps b) (rootView sd ps (b ++ c)) (rootView_le sd ps b c) hsd hsn p
 
 /-- More fuel never changes an answer that was already known (so the fuel the driver uses is
 immaterial once `fuelOK` holds). -/
@@ -156,6 +172,21 @@ example :
     sizeOf? (G exM 6) (rootView exSd [] [1]) = some 4 ∧
     isComplete (G exM 6) (rootView exSd [] [1, 5, 0]) = false ∧
     isComplete (G exM 6) (rootView exSd [] [1, 5, 0, 9]) = true := by
+  decide
+
+/-- non-vacuity of `C01_ok_monotone_partial`: the example without its array is inside the
+fragment; `01 05 00` is Ok (and stays Ok with a fourth byte), `01 05` is not. -/
+def exSdNA : StructDef :=
+  { exSd with fields := exPhys.take 2 ++
+      [ { name := "$size", anon := false, cond := .const (.bool true),
+          kind := .virt (synthSize (exPhys.take 2)) none } ] }
+
+example :
+    moduleWF { structs := [exSdNA] } = true ∧ moduleNoArrays { structs := [exSdNA] } = true ∧
+    structNoArrays exSdNA = true ∧
+    (G { structs := [exSdNA] } 6).okAt (rootView exSdNA [] [1, 5]) [] = false ∧
+    (G { structs := [exSdNA] } 6).okAt (rootView exSdNA [] [1, 5, 0]) [] = true ∧
+    (G { structs := [exSdNA] } 6).okAt (rootView exSdNA [] ([1, 5, 0] ++ [9])) [] = true := by
   decide
 
 /-- non-vacuity of `C01_size_is_max_end` / `C01_next_is_prev_end`: with `tag = 2` field `a` is
